@@ -38,7 +38,7 @@ Reach(todo, seen) ==
         IN Reach((todo \ {x}) \cup ({ks[i] : i \in DOMAIN ks} \ (seen \cup {x})), seen \cup {x})
 \* the machine models memory inputs (plain and with the depth counter), the action families 0..7 and the operators above
 Supported(ev) ==
-   /\ ev.cls \in {0, 1} /\ ev.xt \in {0, 3, 4, 5} /\ ev.af \in 0..7
+   /\ ev.cls \in {0, 1} /\ ev.xt \in {0, 3, 4, 5} /\ ev.af \in 0..8
    /\ \A x \in Reach({ev.g}, {}) :
          /\ (TableNodes[x].iop \in MachineOps \/ M!IsAtom(x))
          /\ (TableNodes[x].iop \in {"strict", "star_strict"} => M!RestOf(TableNodes[x].ikids) # {})
@@ -64,6 +64,7 @@ Same(e, r) ==
         [] e.k = "sc" -> e.sid = r.sid /\ e.o = r.o /\ e.os = r.os
         [] e.k = "ss" -> e.sid = r.sid /\ e.o = r.o /\ e.os = r.os
         [] e.k = "sd" -> e.sid = r.sid
+        [] e.k \in {"cst", "csu", "cfa", "cuw"} -> e.r = r.r /\ e.o = r.o
         [] e.k = "ia" -> e.n = r.n /\ e.o = r.o /\ e.eo = r.eo /\ e.v = r.v
         [] e.k = "i0" -> e.n = r.n /\ e.v = r.v
         [] OTHER -> FALSE
